@@ -25,26 +25,26 @@ def gen_baggage(repo):
     out.append(f'def baggageMemberSep : UInt8 := {_char_const(txt, "kMembersSeparator")}\n')
     out.append(f'def baggageMetaSep : UInt8 := {_char_const(txt, "kMetadataSeparator")}\n')
     # IsPrintableString: ch < ' ' || ch > '~'
-    m = X._one(r"ch\s*<\s*'(.)'\s*\|\|\s*ch\s*>\s*'(.)'", txt, "IsPrintableString bounds")
-    out.append(f'def baggagePrintLo : UInt8 := {ord(m.group(1))}\n')
-    out.append(f'def baggagePrintHi : UInt8 := {ord(m.group(2))}\n')
+    m = X._one(r"(\w+)\s*<\s*'(.)'\s*\|\|\s*\1\s*>\s*'(.)'", txt, "IsPrintableString bounds")
+    out.append(f'def baggagePrintLo : UInt8 := {ord(m.group(2))}\n')
+    out.append(f'def baggagePrintHi : UInt8 := {ord(m.group(3))}\n')
     # UrlEncode: std::isalnum(c) || c == '-' || c == '_' || c == '.' || c == '~'  /  c == ' ' -> '+'  /  '%' + hex
     enc = X._one(r'static\s+std::string\s+UrlEncode\s*\(.*?\n  \}', txt, 'UrlEncode').group(0)
-    m = X._one(r'std::isalnum\(c\)((?:\s*\|\|\s*c\s*==\s*\'.\')+)\s*\)', enc, 'UrlEncode unreserved set')
-    keep = [ord(c) for c in re.findall(r"'(.)'", m.group(1))]
+    m = X._one(r'std::isalnum\((\w+)\)((?:\s*\|\|\s*\1\s*==\s*\'.\')+)\s*\)', enc, 'UrlEncode unreserved set')
+    keep = [ord(c) for c in re.findall(r"'(.)'", m.group(2))]
     out.append(f'/-- the non-alphanumeric characters `UrlEncode` leaves alone -/\ndef baggageKeep : List UInt8 := {X.lean_bytes(keep)}\n')
-    m = X._one(r'static\s+const\s+char\s*\*\s*hex\s*=\s*"((?:[^"\\]|\\.)*)"', enc, 'UrlEncode hex table')
+    m = X._one(r'const\s+char\s*\*\s*\w+\s*=\s*"((?:[^"\\]|\\.)*)"', enc, 'UrlEncode hex table')
     out.append(f'def baggageHex : List UInt8 := {X.lean_bytes(X._c_string_literal(m.group(1)))}\n')
-    m = X._one(r"c\s*==\s*'(.)'\s*\)\s*\{\s*ret\.push_back\('(.)'\)", enc, "UrlEncode space -> plus")
+    m = X._one(r"\w+\s*==\s*'(.)'\s*\)\s*\{\s*\w+\.push_back\('(.)'\)", enc, "UrlEncode space -> plus")
     out.append(f'def baggageSpace : UInt8 := {ord(m.group(1))}\n')
     out.append(f'def baggagePlus : UInt8 := {ord(m.group(2))}\n')
-    m = X._one(r"ret\.push_back\('(.)'\);\s*ret\.push_back\(to_hex\(c\s*>>\s*4\)\);\s*ret\.push_back\(to_hex\(c\s*&\s*15\)\);", enc, "UrlEncode escape")
+    m = X._one(r"\w+\.push_back\('(.)'\);\s*\w+\.push_back\(\w+\(\w+\s*>>\s*4\)\);\s*\w+\.push_back\(\w+\(\w+\s*&\s*15\)\);", enc, "UrlEncode escape")
     out.append(f'def baggageEscape : UInt8 := {ord(m.group(1))}\n')
     dec = X._one(r'static\s+std::string\s+UrlDecode\s*\(.*?\n  \}', txt, 'UrlDecode').group(0)
-    if not re.search(r'i\s*\+\s*2\s*>=\s*str\.size\(\)\s*\|\|\s*!IsHex\(str\[i\s*\+\s*1\]\)\s*\|\|\s*!IsHex\(str\[i\s*\+\s*2\]\)', dec):
+    if not re.search(r'(\w+)\s*\+\s*2\s*>=\s*(\w+)\.size\(\)\s*\|\|\s*!\w+\(\2\[\1\s*\+\s*1\]\)\s*\|\|\s*!\w+\(\2\[\1\s*\+\s*2\]\)', dec):
         raise X.ExtractError('UrlDecode: the guard `i + 2 >= str.size() || !IsHex(str[i + 1]) || !IsHex(str[i + 2])` is gone')
-    m = X._one(r'std::isalnum\(str\[i\]\)((?:\s*\|\|\s*str\[i\]\s*==\s*\'.\')+)\s*\)', dec, 'UrlDecode unreserved set')
-    keepd = [ord(c) for c in re.findall(r"'(.)'", m.group(1))]
+    m = X._one(r'std::isalnum\((\w+\[\w+\])\)((?:\s*\|\|\s*\w+\[\w+\]\s*==\s*\'.\')+)\s*\)', dec, 'UrlDecode unreserved set')
+    keepd = [ord(c) for c in re.findall(r"'(.)'", m.group(2))]
     out.append(f'/-- the non-alphanumeric characters `UrlDecode` copies -/\ndef baggageKeepDecode : List UInt8 := {X.lean_bytes(keepd)}\n')
     txt2 = X._strip_comments(X._read(repo, BC))
     m = X._one(r'kBaggageHeader\s*=\s*"((?:[^"\\]|\\.)*)"', txt2, 'kBaggageHeader')
